@@ -117,14 +117,30 @@ fn read_call(pkg: &mut msi::Package<crate::medium::Handle>, rng: &mut Rng, log: 
     }
 }
 
+/// Adds the two digital-signature streams with the container library directly.
+fn sign(bytes: &[u8]) -> Option<Vec<u8>> {
+    use std::io::Write;
+    let mut comp = cfb::CompoundFile::open(std::io::Cursor::new(bytes.to_vec())).ok()?;
+    comp.create_stream("/\u{5}DigitalSignature").ok()?.write_all(b"signature bytes").ok()?;
+    comp.create_stream("/\u{5}MsiDigitalSignatureEx").ok()?.write_all(b"signature ex bytes").ok()?;
+    comp.flush().ok()?;
+    Some(comp.into_inner().into_inner())
+}
+
 fn run_case(rep: &mut Report, seed: u64, case: u64) {
-    let (bytes, origin) = match make_input(seed, case) {
+    let (mut bytes, origin) = match make_input(seed, case) {
         Some(x) => x,
         None => {
             rep.count("inputs_skipped");
             return;
         }
     };
+    if case % 4 == 3 {
+        if let Some(s) = sign(&bytes) {
+            bytes = s;
+            rep.count("inputs_signed");
+        }
+    }
     rep.count(&format!("inputs_{}", origin));
     for (mi, mode) in CLOSE_MODES.iter().enumerate() {
         let med = Medium::from_bytes(bytes.clone());
